@@ -62,8 +62,16 @@ def run(chk):
     chk.check(len(notes) == 1, "R2", f"{B}:PdoMap.on_message | one notify", f.loc(), f"{len(notes)}")
     for nt in notes:
         chk.check(inside_with(f.node, nt.ast, COND), "R2", f"{B}:PdoMap.on_message | notify under the condition", f.loc(nt.ast), "")
+        from .common import enclosing as _enclosing
+        nt_with = [w for w in _enclosing(f.node, nt.ast, (ast.With,)) if any(src(it.context_expr) == COND for it in w.items)]
+        # inside one `with cond:` block the order of the stores and the notify cannot be observed (a woken reader needs the lock)
         late = [n for n in ff.cfg.reach_from(nt, skip_exc=True) if n.kind == "stmt" and isinstance(n.ast, ast.Assign)
-                and any(dotted(t) in ("self.data", "self.timestamp", "self.is_received") for t in n.ast.targets)]
+                and any(dotted(t) in ("self.data", "self.timestamp", "self.is_received") for t in n.ast.targets)
+                and not (nt_with and any(n.ast is x for x in ast.walk(nt_with[-1])))]
+        early_cb = [n for n in ff.cfg.nodes if n.kind == "stmt" and any(isinstance(c, ast.Call) and dotted(c.func) == "callback" for c in ast.walk(n.ast))
+                    and nt in ff.cfg.reach_from(n, skip_exc=True)]
+        chk.check(not early_cb, "R2", f"{B}:PdoMap.on_message | waiters are woken before user callbacks run", f.loc(nt.ast),
+                  "a callback runs before notify_all: one that raises leaves wait_for_reception() asleep although the frame was stored")
         chk.check(not late, "R2", f"{B}:PdoMap.on_message | state stored before waking waiters", f.loc(nt.ast), "a woken reader can see the previous frame")
     wit = must_pass(ff.cfg, lambda n: n in notes, skip_edge=lambda n, lab: n.kind == "test" and "can_id" in src(n.ast) and lab == "F")
     chk.check(wit is None, "R2", f"{B}:PdoMap.on_message | every accepted frame wakes waiters", f.loc(), f"{path_text(wit) if wit else ''}")
